@@ -21,7 +21,7 @@ MANIFEST = dict(
     text="proof (partial). Machine-checked (Coq): (1) C15_string_escape — for ALL strings, the echo's escape_numbat_string "
          "followed by the parser's strip_and_escape is the identity (string literals and, since the fix, decorator strings); "
          "(2) C15_roundtrip_partial / C15_roundtrip_exact — over a Gallina model of the expression echo (typed_ast.rs "
-         "PrettyPrint for Expression, pretty_print_binop, with_parens, with_parens_liberal, call_syntax, temperature sugar), "
+         "PrettyPrint for Expression and StringPart, pretty_print_binop, with_parens, with_parens_liberal, call_syntax, temperature sugar), "
          "for EVERY printable typed expression of any depth the echoed tokens form a well-formed derivation tree of the "
          "documented grammar, hence by the C10 theorem the parser model accepts them and returns the tree they denote, "
          "which (without temperature sugar / digit separators) is exactly the tree the expression was elaborated from "
@@ -36,7 +36,7 @@ MANIFEST = dict(
          "NOT proved, checked on the implementation only (echo oracle: interpret, echo, re-interpret the echo in a clone of "
          "the session, compare acceptance, type, value to 1e-12, echo of the echo, and a probe expression): how the readable "
          "types of statements are computed (inference, generalisation), "
-         "interpolated strings, the number formatter, elaboration of the temperature sugar, type equality, and the "
+         "the number formatter, elaboration of the temperature sugar, type equality, and the "
          "fixed-point clause outside the proved class.",
     design_ref="DESIGN.md §6 C15; design/syntax.md",
     note="Trusted: Coq kernel + vm_compute; the hand port of the expression printer in Syntax/TypedPrinter.v (tied on every run by "
